@@ -411,6 +411,21 @@ ADDENDA = {
            "every scale and chains of real pyramid levels are compared with Pipeline.stepwiseInfo / stepwiseMethod / "
            "computeScales over the model downscalers.",
 }
+FORMS = {
+    "C02": "the chunk in C order, Fortran order, as a transposed view, as a window of a larger array, big-endian, read-only",
+    "C04": "payloads as bytes, bytearray, memoryview and the typed buffer of a uint16 array",
+    "C05": "payloads as bytes, bytearray, memoryview and the typed buffer of a uint16 array",
+    "C06": "the method named or selected as `auto` through the info's type, with the same options",
+    "C07": "the method named or selected as `auto` through the info's type, with the same options",
+    "C09": "chunk coordinates as Python ints and as NumPy scalars of every integer type that holds them",
+    "C10": "the chunk size as a tuple, the JSON info's list, NumPy integers or a NumPy array",
+    "C14": "dataset directories with spaces and non-ASCII letters addressed by percent-encoded URLs",
+    "C17": "fragment names with spaces, colons and non-ASCII letters",
+    "C20": "counts as Python ints and as floating-point numbers (float, numpy.float64)",
+}
+for _p, _t in FORMS.items():
+    ADDENDA[_p] = ADDENDA.get(_p, "") + (" The correspondence run hands the real code the same logical input in the forms callers "
+                                          "produce (" + _t + ").")
 TRANSLATED = {"C01": "loop bounds", "C03": "the grid-test condition", "C05": "next_cmc", "C06": "half_chunk / chunk_fetch_factor",
               "C08": "the per-level factor, size and chunk-exponent arithmetic",
               "C09": "the uint64 masks and shard / minishard numbers", "C13": "the chunk boxes of the conversion loop",
